@@ -11,12 +11,13 @@ RULE = ("all byte strings of length <= 2 over all 256 values, all strings of len
         "23 ill-formed forms x backslash before / inside / after / at the next chunk edge, every pair (first backslash, first high byte), "
         "every run 0..9 of every whitespace byte and 8 look-alikes after every length, lengths 41..200 / 250..263 / 510..520 / ~4096 / ~65536, "
         "14 call routes (trait method, new, Default, clone, &T, &&T, &dyn, Box<T>, Box<dyn>, ...), sub-slices at alignments 0..8 with hostile "
-        "neighbours and the address of the borrowed str, Scalar's Display, document -> read_str / &str / String / Cow fields. non-trivial = the output is not the input verbatim, or the input is longer than 8 bytes")
+        "neighbours and the address of the borrowed str, Scalar's Display, document -> read_str / &str / String / Cow fields; wave 6 (props/C12_sizes.py): one size dimension at a time over the ladder 0 1 2 3 7 8 9 15..17 31..33 63..65 127..129 255..257 1023..1025 4095..4097 65533..65536 (+ powers of two, 65537): total length x one special byte x position class (offsets from both ends, edges of the last 8/16/32/64/128-byte block; every offset of 63..65 / 127..129 / 255..257), numbers of backslashes / high bytes with 2- and 3-byte images / invalid bytes / 2-3-4-byte characters at every chunk phase, trailing / leading / interior whitespace runs, a character cut at every split by every boundary 8k (k <= 40, ladder to 65536) x the first backslash, the slice at 29 absolute addresses modulo 128, the long strings through the 14 routes / Display / documents; release and debug builds; strings beyond 300 bytes are judged by the oracles alone. non-trivial = the output is not the input verbatim, or the input is longer than 8 bytes")
 TRUSTED = ["String::from_utf8_lossy / str::from_utf8 / char::encode_utf8 (std) are modelled by Utf8.lossy / valid_utf8 / encode_utf8 and "
            "compared against std directly on every run (streams std_*)",
            "oracle: own Windows-1252 table (Python cp1252 codec for assigned bytes, C1 controls for 0x81 0x8d 0x8f 0x90 0x9d); "
            "bytes.decode('utf-8', errors='replace') (maximal-subpart rule)"]
 ASSUMPTIONS = ["bytes are < 256 (wf_bytes)"]
+PROFILES = ["release", "debug"]   # the size ladders (props/C12_sizes.py) also run on the debug build
 
 WS = b" \t\n\x0c\r"
 REP = [0x00, 0x09, 0x0a, 0x0b, 0x0c, 0x0d, 0x20, 0x41, 0x5c, 0x7f, 0x80, 0x8f, 0x90, 0x9f, 0xa0, 0xbf, 0xc0, 0xc1, 0xc2, 0xdf,
@@ -34,23 +35,45 @@ def w1252_char(b):
 TABLE = [w1252_char(b) for b in range(256)]
 
 
-def trim(d):
+_TRANS = {b: TABLE[b] for b in range(256)}
+
+
+def trim_naive(d):
     n = len(d)
     while n and d[n - 1] in WS:
         n -= 1
     return d[:n]
 
 
+def trim(d):
+    """the maximal suffix of the five ASCII whitespace bytes removed (C speed: the size ladders decode 64 KiB strings)"""
+    return bytes(d).rstrip(WS)
+
+
 def unescape(d):
-    return bytes(x for x in d if x != 0x5c)
+    return bytes(d).replace(b"\\", b"")
 
 
 def ref_w1252(d):
-    return "".join(TABLE[b] for b in unescape(trim(d))).encode("utf-8")
+    return unescape(trim(d)).decode("latin-1").translate(_TRANS).encode("utf-8")
 
 
 def ref_utf8(d):
     return unescape(trim(d)).decode("utf-8", errors="replace").encode("utf-8")
+
+
+def _self_check():
+    """the C-speed reference functions against their byte-by-byte definitions"""
+    import random
+    r = random.Random(12)
+    for _ in range(3000):
+        d = bytes(r.choice(b" \t\n\x0c\r\x0b\\a\x80\xff\xe9\x00") for _ in range(r.randrange(12)))
+        assert trim(d) == trim_naive(d)
+        assert unescape(d) == bytes(x for x in d if x != 0x5c)
+        assert ref_w1252(d) == "".join(TABLE[b] for b in unescape(trim(d))).encode("utf-8")
+
+
+_self_check()
 
 
 def is_valid(b):
@@ -61,25 +84,33 @@ def is_valid(b):
         return False
 
 
+class _Short(bytes):
+    """a byte string whose %r is abbreviated in messages (the size ladders decode 64 KiB strings; the replay carries the whole case)"""
+    def __repr__(self):
+        if len(self) <= 160:
+            return bytes.__repr__(self)
+        return "<%d bytes: %s ... %s>" % (len(self), bytes.__repr__(self[:60]), bytes.__repr__(self[-40:]))
+
+
 def check_decode(ctx, c, out, rep=None, note=""):
     """rep: the case line to put in the replay when the decoder was reached through another kind (wave 4)"""
     rc = [rep or c]
     kind, h = c.split("\t")[:2]
-    d = unhex(h)
+    d = _Short(unhex(h))
     name = ("Windows1252Encoding" if kind == "enc.w1252" else "Utf8Encoding") + note
     if out in ("PANIC", "ABORT", "HANG") or out[:2] not in ("B:", "O:"):
         ctx.fail("decode-panic", "%s::decode(%r) -> %s" % (name, d, out) + note, rc, [out], "a string")
         return
     borrowed = out[0] == "B"
-    got = unhex(out[2:])
+    got = _Short(unhex(out[2:]))
     t = trim(d)
-    exp = ref_w1252(d) if kind == "enc.w1252" else ref_utf8(d)
+    exp = _Short(ref_w1252(d) if kind == "enc.w1252" else ref_utf8(d))
     if not is_valid(got):
-        ctx.fail("invalid-utf8", "%s::decode(%r) is not valid UTF-8: %s" % (name, d, got.hex()), rc, [out], "valid UTF-8")
+        ctx.fail("invalid-utf8", "%s::decode(%r) is not valid UTF-8: %s" % (name, d, got.hex() if len(got) <= 160 else repr(got)), rc, [out], "valid UTF-8")
     if got != exp:
         ctx.fail("reference", "%s::decode(%r) = %r, reference mapping (trim, unescape, %s) = %r" % (
             name, d, got, "code page" if kind == "enc.w1252" else "lossy", exp), rc, [out], ("O:" if not borrowed else "B:") + hexs(exp))
-    plain = all(x < 128 and x != 0x5c for x in t)
+    plain = t.isascii() and 0x5c not in t
     if plain and not borrowed:
         ctx.fail("not-borrowed", "%s::decode(%r): escape-free ASCII input was not returned borrowed" % (name, d), rc, [out], "B:" + hexs(t))
     if borrowed and got != t:
@@ -273,6 +304,11 @@ def run(ctx):
     import sys
     from props import C12_routes
     C12_routes.run(ctx, sys.modules[__name__])
+    # <<<
+    # >>> s_c12 (wave 6): size / boundary ladders (lengths to 65537, counts, whitespace runs, straddled 8k boundaries, alignment mod 128),
+    #     release and debug builds
+    from props import C12_sizes
+    C12_sizes.run(ctx, sys.modules[__name__])
     # <<<
 
 
